@@ -50,6 +50,7 @@ type occEntry struct {
 	group string
 	n     int
 	sub   int
+	kind  string // kind of the callback that entered last
 }
 
 func NewHist(sim *sched.Sim) *Hist {
@@ -98,6 +99,11 @@ func (h *Hist) Enter(group string, sub int, kind string) {
 			if h.occ[i].n > 0 && group != "" {
 				h.Viol = append(h.Viol, &Violation{Property: "C01", Class: "group-overlap", Signature: "",
 					Step: h.Sim.Step(), Detail: fmt.Sprintf("callback %d (%s) of group %q started while callback %d of the same group is executing", sub, kind, group, h.occ[i].sub)})
+				if ok := h.occ[i].kind; kind == "qreq" || kind == "qexpire" || ok == "qreq" || ok == "qexpire" {
+					// the callback of a query event is one of the group's
+					h.Viol = append(h.Viol, &Violation{Property: "C15", Class: "callback-not-serialized", Signature: "",
+						Step: h.Sim.Step(), Detail: fmt.Sprintf("query event callback %d (%s) of group %q started while callback %d of the same group is executing", sub, kind, group, h.occ[i].sub)})
+				}
 				if h.epoch > 0 {
 					h.Viol = append(h.Viol, &Violation{Property: "C03", Class: "guarantee-lost-after-restart", Signature: "group-overlap",
 						Step: h.Sim.Step(), Detail: fmt.Sprintf("epoch %d (after a Shutdown/Serve cycle): callback %d (%s) of group %q started while callback %d of the same group is executing", h.epoch, sub, kind, group, h.occ[i].sub)})
@@ -105,13 +111,14 @@ func (h *Hist) Enter(group string, sub int, kind string) {
 			}
 			h.occ[i].n++
 			h.occ[i].sub = sub
+			h.occ[i].kind = kind
 			if group == "" && h.occ[i].n > h.MaxOcc {
 				h.MaxOcc = h.occ[i].n
 			}
 		}
 	}
 	if !found {
-		h.occ = append(h.occ, occEntry{group: group, n: 1, sub: sub})
+		h.occ = append(h.occ, occEntry{group: group, n: 1, sub: sub, kind: kind})
 		if group == "" && h.MaxOcc < 1 {
 			h.MaxOcc = 1
 		}
